@@ -160,16 +160,16 @@ package httpgen
 //@   requires spec.distinctNames(serviceHeaders) && spec.distinctNames(methodHeaders)
 //@   ensures violations_listed: verr != nil ==> len(verr.Violations) > 0
 //@   ensures method_headers_enforced: verr == nil ==> (forall k int :: 0 <= k && k < len(methodHeaders) && methodHeaders[k].GetRequired() ==> spec.okHdr(r, methodHeaders[k]))
-//@   ensures service_headers_enforced: verr == nil ==> (forall k int :: 0 <= k && k < len(serviceHeaders) && serviceHeaders[k].GetRequired() && !(exists j int :: 0 <= j && j < len(methodHeaders) && methodHeaders[j].GetRequired() && lower(methodHeaders[j].GetName()) == lower(serviceHeaders[k].GetName())) ==> spec.okHdr(r, serviceHeaders[k]))
-//@   ensures rejects_only_for_declared: verr != nil ==> (exists k int :: 0 <= k && k < len(methodHeaders) && methodHeaders[k].GetRequired() && !spec.okHdr(r, methodHeaders[k])) || (exists k int :: 0 <= k && k < len(serviceHeaders) && serviceHeaders[k].GetRequired() && !(exists j int :: 0 <= j && j < len(methodHeaders) && methodHeaders[j].GetRequired() && lower(methodHeaders[j].GetName()) == lower(serviceHeaders[k].GetName())) && !spec.okHdr(r, serviceHeaders[k]))
+// a method-level declaration of the same name (required or not) replaces the service-level one
+//@   ensures service_headers_enforced: verr == nil ==> (forall k int :: 0 <= k && k < len(serviceHeaders) && serviceHeaders[k].GetRequired() && !(exists j int :: 0 <= j && j < len(methodHeaders) && lower(methodHeaders[j].GetName()) == lower(serviceHeaders[k].GetName())) ==> spec.okHdr(r, serviceHeaders[k]))
+//@   ensures rejects_only_for_declared: verr != nil ==> (exists k int :: 0 <= k && k < len(methodHeaders) && methodHeaders[k].GetRequired() && !spec.okHdr(r, methodHeaders[k])) || (exists k int :: 0 <= k && k < len(serviceHeaders) && serviceHeaders[k].GetRequired() && !(exists j int :: 0 <= j && j < len(methodHeaders) && lower(methodHeaders[j].GetName()) == lower(serviceHeaders[k].GetName())) && !spec.okHdr(r, serviceHeaders[k]))
 //@   loop 1 invariant forall s string :: inDom(allHeaders, s) ==> (exists k int :: 0 <= k && k < _i && serviceHeaders[k].GetRequired() && serviceHeaders[k] == allHeaders[s])
 //@   loop 1 invariant forall k int :: 0 <= k && k < _i && serviceHeaders[k].GetRequired() ==> inDom(allHeaders, lower(serviceHeaders[k].GetName())) && allHeaders[lower(serviceHeaders[k].GetName())] == serviceHeaders[k]
 //@   loop 1 invariant forall s string :: inDom(allHeaders, s) ==> lower(allHeaders[s].GetName()) == s
 //@   loop 2 invariant forall s string :: inDom(allHeaders, s) ==> lower(allHeaders[s].GetName()) == s
-//@   loop 2 invariant forall s string :: inDom(allHeaders, s) ==> (exists k int :: 0 <= k && k < len(serviceHeaders) && serviceHeaders[k].GetRequired() && serviceHeaders[k] == allHeaders[s] && !(exists j int :: 0 <= j && j < _i && methodHeaders[j].GetRequired() && lower(methodHeaders[j].GetName()) == s)) || (exists k int :: 0 <= k && k < _i && methodHeaders[k].GetRequired() && methodHeaders[k] == allHeaders[s])
+//@   loop 2 invariant forall s string :: inDom(allHeaders, s) ==> (exists k int :: 0 <= k && k < len(serviceHeaders) && serviceHeaders[k].GetRequired() && serviceHeaders[k] == allHeaders[s] && !(exists j int :: 0 <= j && j < _i && lower(methodHeaders[j].GetName()) == s)) || (exists k int :: 0 <= k && k < _i && methodHeaders[k].GetRequired() && methodHeaders[k] == allHeaders[s])
 //@   loop 2 invariant forall k int :: 0 <= k && k < _i && methodHeaders[k].GetRequired() ==> inDom(allHeaders, lower(methodHeaders[k].GetName())) && allHeaders[lower(methodHeaders[k].GetName())] == methodHeaders[k]
-//@   loop 2 invariant forall k int :: 0 <= k && k < len(serviceHeaders) && serviceHeaders[k].GetRequired() ==> inDom(allHeaders, lower(serviceHeaders[k].GetName()))
-//@   loop 2 invariant forall k int :: 0 <= k && k < len(serviceHeaders) && serviceHeaders[k].GetRequired() && !(exists j int :: 0 <= j && j < _i && methodHeaders[j].GetRequired() && lower(methodHeaders[j].GetName()) == lower(serviceHeaders[k].GetName())) ==> allHeaders[lower(serviceHeaders[k].GetName())] == serviceHeaders[k]
+//@   loop 2 invariant forall k int :: 0 <= k && k < len(serviceHeaders) && serviceHeaders[k].GetRequired() && !(exists j int :: 0 <= j && j < _i && lower(methodHeaders[j].GetName()) == lower(serviceHeaders[k].GetName())) ==> inDom(allHeaders, lower(serviceHeaders[k].GetName())) && allHeaders[lower(serviceHeaders[k].GetName())] == serviceHeaders[k]
 //@   ensures violations_name_declared_headers: verr != nil ==> (forall k int :: 0 <= k && k < len(verr.Violations) ==> verr.Violations[k] != nil && ((exists j int :: 0 <= j && j < len(methodHeaders) && methodHeaders[j].GetRequired() && verr.Violations[k].Field == methodHeaders[j].GetName()) || (exists j int :: 0 <= j && j < len(serviceHeaders) && serviceHeaders[j].GetRequired() && verr.Violations[k].Field == serviceHeaders[j].GetName())))
 //@   loop 3 invariant forall k int :: 0 <= k && k < len(violations) ==> violations[k] != nil && inDom(allHeaders, lower(violations[k].Field)) && allHeaders[lower(violations[k].Field)].GetName() == violations[k].Field
 //@   loop 3 invariant len(violations) == 0 ==> (forall s string :: done[s] ==> spec.okHdr(r, allHeaders[s]))
